@@ -18,6 +18,7 @@ CONSTANTS
   DsHist = 4
   DsOps = {"pk2d", "pk4d", "cf2d", "cf4d", "table", "setmon", "reset", "saveload"}
   NMon = 2
+  Neg = TRUE
   Shape = "simple"
 INVARIANT TypeOK
 INVARIANT CleanOK
